@@ -528,19 +528,19 @@ open Jesse.Eng
 variable {M : Type} [Inhabited M] (u : UserStrategy M)
 
 theorem order_execution_never_writes_store (e : Engine M) (id : Nat) :
-    (executeOrder u e id).stores = e.stores := StoreFrame.executeOrder_ss u e id
+    (executeOrder u e id).stores = e.stores := (StoreFrame.executeOrder_ss u e id).1
 
 theorem strategy_step_never_writes_store (fuel : Nat) (e : Engine M) (r : Nat) :
-    (executeStrategy u fuel e r).stores = e.stores := StoreFrame.executeStrategy_ss u fuel e r
+    (executeStrategy u fuel e r).stores = e.stores := (StoreFrame.executeStrategy_ss u fuel e r).1
 
 theorem market_queue_never_writes_store (fuel : Nat) (e : Engine M) :
-    (executePendingMarketOrders u fuel e).stores = e.stores := StoreFrame.pending_ss u fuel e
+    (executePendingMarketOrders u fuel e).stores = e.stores := (StoreFrame.pending_ss u fuel e).1
 
 theorem routes_step_never_writes_store (fuel : Nat) (e : Engine M) (i b : Nat) :
-    (routesStep u fuel e i b).stores = e.stores := StoreFrame.routesStep_ss u fuel e i b
+    (routesStep u fuel e i b).stores = e.stores := (StoreFrame.routesStep_ss u fuel e i b).1
 
 theorem finish_run_never_writes_store (fuel : Nat) (e : Engine M) :
-    (finishRun u fuel e).stores = e.stores := StoreFrame.finishRun_ss u fuel e
+    (finishRun u fuel e).stores = e.stores := (StoreFrame.finishRun_ss u fuel e).1
 
 end frame
 
@@ -692,5 +692,120 @@ theorem publish_establishes_inv (e : Engine M) (sym : Nat) (c last : Candle) (t0
   exact r3 m (by rw [List.nil_append]; exact hm)
 
 end publish
+
+/-! ### the invariant through a whole minute of the normal simulator, for every strategy
+
+`EPre e sym t0 ts`: while minute `ts` of symbol `sym` is being processed, the symbol's store has evenly spaced minutes,
+its last stored minute is minute `ts`, and every bigger timeframe of the symbol satisfies `PreInv`.  The matching loop
+(every fill: REPLACE LAST, PUBLISH, the execution with all its hooks, re-selection) keeps it, whatever the strategy does;
+so does the end of the minute (REPLACE LAST with the whole minute, the liquidation check). -/
+
+section run
+open Jesse.Eng StoreProto
+variable {M : Type} [Inhabited M] (u : UserStrategy M)
+
+/-- both parts of a split candle carry the candle's timestamp -/
+theorem split_ts (k : Candle) (p : Rat) (a b : Candle) (h : splitCandle k p = some (a, b)) :
+    a.ts = k.ts ∧ b.ts = k.ts := by
+  revert h
+  unfold splitCandle
+  repeat' (refine ite_elim (fun r => r = some (a, b) → a.ts = k.ts ∧ b.ts = k.ts) _ _ _ (fun hc => ?_) (fun hc => ?_))
+  all_goals (intro h; first | (injection h with h; injection h with h1 h2; subst h1; subst h2; exact ⟨rfl, rfl⟩) | (exact absurd h (by simp)))
+
+structure EPre (e : Engine M) (sym : Nat) (t0 ts : Int) : Prop where
+  hs : sym < e.stores.length
+  spaced : Spaced t0 (storeOf e sym).short
+  last : ∃ l, (storeOf e sym).short.getLast? = some l ∧ l.ts = ts
+  pre : ∀ m ∈ tfsRaw e.cfg sym, PreInv m (storeOf e sym).short (longOf (storeOf e sym) m)
+
+/-- the session starts on a boundary of every bigger timeframe of the symbol (the property's assumption) -/
+def AlignedCfg (cfg : Cfg) (sym : Nat) (t0 : Int) : Prop :=
+  0 < t0 ∧ ∀ m ∈ tfsRaw cfg sym, 0 < m ∧ t0 % ((m : Int) * 60000) = 0
+
+theorem EPre.of_same {e e' : Engine M} {sym : Nat} {t0 ts : Int} (h : StoreFrame.SSame e e') (hp : EPre e sym t0 ts) :
+    EPre e' sym t0 ts := by
+  obtain ⟨h1, h2⟩ := h
+  have hst : storeOf e' sym = storeOf e sym := by unfold storeOf; rw [h1]
+  exact ⟨by rw [h1]; exact hp.hs, by rw [hst]; exact hp.spaced, by rw [hst]; exact hp.last, by rw [hst, h2]; exact hp.pre⟩
+
+theorem updatePartialCandle_cfg_len (e : Engine M) (sym : Nat) (c : Candle) :
+    (updatePartialCandle e sym c).cfg = e.cfg ∧ (updatePartialCandle e sym c).stores.length = e.stores.length := by
+  unfold updatePartialCandle
+  dsimp only
+  have h1 : (addCandle e sym 1 c).cfg = e.cfg ∧ (addCandle e sym 1 c).stores.length = e.stores.length :=
+    ⟨rfl, StoreFrame.stores_length_addCandle _ _ _ _⟩
+  generalize (((e.cfg.routes ++ e.cfg.dataRoutes).filter (fun r => r.sym = sym ∧ r.tf ≠ 1)).map (·.tf)) = tfs
+  revert h1
+  generalize addCandle e sym 1 c = e1
+  induction tfs generalizing e1 with
+  | nil => intro h; exact h
+  | cons tf rest ih =>
+    intro h
+    simp only [List.foldl_cons]
+    apply ih
+    split
+    · exact ⟨h.1, by rw [StoreFrame.stores_length_addCandle]; exact h.2⟩
+    · refine ⟨?_, by rw [StoreFrame.stores_length_fail]; exact h.2⟩
+      unfold fail; split <;> exact h.1
+
+/-- PUBLISH keeps `EPre` and establishes `StoreInv` for every bigger timeframe of the symbol -/
+theorem publish_keeps_pre (e : Engine M) (sym : Nat) (c : Candle) (t0 ts : Int)
+    (hal : AlignedCfg e.cfg sym t0) (hp : EPre e sym t0 ts) (hc : c.ts = ts) :
+    EPre (updatePartialCandle e sym c) sym t0 ts ∧
+    ∀ m ∈ tfsRaw e.cfg sym, StoreInv m (storeOf (updatePartialCandle e sym c) sym).short
+      (longOf (storeOf (updatePartialCandle e sym c) sym) m) := by
+  obtain ⟨l, hl, hlts⟩ := hp.last
+  obtain ⟨r1, r2, r3⟩ := publish_establishes_inv e sym c l t0 hp.hs hal.1 hal.2 hp.spaced hl (by rw [hc, hlts]) hp.pre
+  obtain ⟨hcfg, hlen⟩ := updatePartialCandle_cfg_len e sym c
+  refine ⟨⟨by rw [hlen]; exact hp.hs, r2, ⟨c, by rw [r1]; simp, hc⟩, ?_⟩, r3⟩
+  intro m hm
+  rw [hcfg] at hm
+  have hne : (storeOf (updatePartialCandle e sym c) sym).short ≠ [] := by rw [r1]; simp
+  exact pre_of_inv m _ _ (hal.2 m hm).1 hne (r3 m hm)
+
+/-- THE MATCHING LOOP KEEPS THE PRE-INVARIANT, for every strategy: any number of fills inside the minute, each with
+    REPLACE LAST, PUBLISH, the order's execution and every hook and reaction it triggers, and the re-selection. -/
+theorem matchLoop_keeps_pre (fuel : Nat) : ∀ (e : Engine M) (sym : Nat) (cur : Candle) (cands : List Nat)
+    (resel : Engine M → Candle → List Nat) (st : Bool) (t0 : Int),
+    AlignedCfg e.cfg sym t0 → EPre e sym t0 cur.ts →
+    EPre (matchLoop u fuel e sym cur cands resel st).1 sym t0 cur.ts ∧
+    (matchLoop u fuel e sym cur cands resel st).1.cfg = e.cfg := by
+  induction fuel with
+  | zero =>
+    intro e sym cur cands resel st t0 _ hp; unfold matchLoop
+    refine ⟨EPre.of_same (StoreFrame.fail_ss _ _) hp, ?_⟩
+    unfold fail; split <;> rfl
+  | succ f ih =>
+    intro e sym cur cands resel st t0 hal hp
+    unfold matchLoop
+    dsimp only
+    split
+    · exact ⟨hp, rfl⟩
+    · split
+      · exact ⟨hp, rfl⟩
+      · split
+        · refine ⟨EPre.of_same (StoreFrame.fail_ss _ _) hp, ?_⟩
+          unfold fail; split <;> rfl
+        · rename_i id0 _ _ a b hsplit
+          obtain ⟨ha, hb⟩ := split_ts _ _ _ _ hsplit
+          obtain ⟨hp1, _⟩ := publish_keeps_pre e sym a t0 cur.ts hal hp ha
+          obtain ⟨hcfg1, _⟩ := updatePartialCandle_cfg_len e sym a
+          -- price, clock, execution: none of them writes the store or the configuration
+          have hs2 : StoreFrame.SSame (updatePartialCandle e sym a)
+              (executeOrder u (if st = true then { setCurrentPrice (updatePartialCandle e sym a) sym a.c with time := a.ts + 60000 }
+                               else setCurrentPrice (updatePartialCandle e sym a) sym a.c) id0) := by
+            refine StoreFrame.SSame.trans ?_ (StoreFrame.executeOrder_ss u _ _)
+            split <;> exact ⟨rfl, rfl⟩
+          revert hs2
+          generalize executeOrder u (if st = true then { setCurrentPrice (updatePartialCandle e sym a) sym a.c with time := a.ts + 60000 }
+                               else setCurrentPrice (updatePartialCandle e sym a) sym a.c) id0 = e4
+          intro hs2
+          have hp2 := EPre.of_same hs2 hp1
+          have hcfg2 := hs2.2
+          rw [← hb] at hp2 ⊢
+          have := ih e4 sym b (resel e4 b) resel st t0 (by rw [hcfg2, hcfg1]; exact hal) hp2
+          exact ⟨this.1, by rw [this.2, hcfg2, hcfg1]⟩
+
+end run
 
 end C07
